@@ -77,7 +77,7 @@ pub fn all() -> Vec<PropSpec> {
         rule: "programs generated as for C01-C06/C16 (matrix mode: no deferral after the Stakker is gone, whose destination differs per deferrer by documented design) are executed by 19 vrun processes, one per feature set printed by /repo/run-feature-combinations plus the default set; cases = programs, each executed on every set; non-trivial = the program touches at least three of: an actor with held Prep calls (flushed or discarded), a Drop-handler deferral, a timer firing, main queue grown beyond 1 KiB; distinct = distinct byte strings",
         assumptions: vec![
             "the 18 feature sets are regenerated from /repo/run-feature-combinations at check time; sets outside that list are not run",
-            "matrix builds use a reduced closure-shape family (24 shapes) to keep 19 builds fast; the full family is exercised by C01/C17",
+            "matrix builds use a reduced closure-shape family (32 shapes, dense just below the 1, 2 and 4 KiB buffer sizes) to keep 20 builds fast; the full family is exercised by C01/C17",
             "each vrun also runs the lock-step monitor, so every set individually gets the C01-C06 oracles; the trace hash covers item starts with the now value seen, un-run drops, Ret/Fwd handler invocations, notifications with cause and payload tag, value drops, message drops, returned bools/Options/lens",
             "Actor::id()/LogID values and logger output are not part of the trace (documented to differ without the logger feature)",
         ],
